@@ -23,7 +23,7 @@ RULE = ("seeded timelines over 1-4 instances: create with every timeout unit alo
         "in which an instance was within eps of its deadline when a sweep trigger happened.")
 ASSUMPTIONS = ["decided under the substituted clock (datetime.now is the only time source of the instance manager); real time is cross-checked on short timelines only",
                "a direct access to an expired but not yet swept instance is unspecified: the shadow adopts what the server did"]
-REQUIRED = {"zero_timeout_instances": 20, "designed_timelines": 20, "whole_server_saves": 10, "events": 2000, "sweep_checks": 1000, "boundary_hits": 100, "expiries_observed": 100, "restores_observed": 20}
+REQUIRED = {"slow_factory_checks": 10, "zero_timeout_instances": 20, "designed_timelines": 20, "whole_server_saves": 10, "events": 2000, "sweep_checks": 1000, "boundary_hits": 100, "expiries_observed": 100, "restores_observed": 20}
 BUDGET_S = {"quick": 110, "thorough": 1500}
 
 UNITS = ["weeks", "days", "hours", "minutes", "seconds", "milliseconds", "microseconds"]
@@ -45,7 +45,40 @@ def gen_cases(tier, seed):
     for trigger in ("metrics", "full-metrics", "create", "other-access"):
         for batch in (False, True):
             cases.append(dict(kind="zero", adapter=False, trigger=trigger, batch=batch, seed=seed))
+    for build in (2, 4, 9):
+        for batch in (False, True):
+            cases.append(dict(kind="slow-factory", adapter=False, build=build, batch=batch, seed=seed))
     return cases
+
+
+def run_slow_factory(case, counters):
+    """Building the engine of a new instance takes time: the instance's timeout counts from the moment it exists (the creation request
+    returns), not from the moment the request arrived."""
+    run = Run(case, counters)
+    trace = []
+    try:
+        w = run.create({"minutes": 10})
+        if w:
+            return w, trace, run
+        run.factory_delay = case["build"]
+        r = run.c.post("/start-instances", json={"instances": 1, "timeout": {"seconds": 10}}) if case["batch"] else run.c.post("/start-instance", json={"timeout": {"seconds": 10}})
+        run.factory_delay = 0
+        js = json.loads(r.get_data(as_text=True))
+        iid = js["instance_uuids"][0] if case["batch"] else js["instance_uuid"]
+        created = run.now()
+        trace.append(("create (engine takes %ds to build)" % case["build"], r.status_code))
+        for (adv, must_live) in ((10 - case["build"] + 1, True), (case["build"], False)):
+            run.clock.advance(seconds=adv)
+            trace.append(("advance %ds" % adv, "metrics"))
+            run.c.get("/metrics")
+            live = iid in run.app._instance_manager._instances
+            counters["slow_factory_checks"] = counters.get("slow_factory_checks", 0) + 1
+            if live != must_live:
+                return dict(kind="removed-too-early" if must_live else "still-present-after-sweep", instance="built slowly", build_seconds=case["build"], timeout="0:00:10",
+                            idle=str(run.now() - created), trigger="metrics"), trace, run
+        return None, trace, run
+    finally:
+        run.close()
 
 
 ZERO_SPECS = [{"seconds": 0}, {}, {"minutes": 1, "seconds": -60}, {u: 0 for u in UNITS}, {"hours": 0.0}]
@@ -128,7 +161,14 @@ class Run:
         self.realtime = realtime
         self.clock = None if realtime else srv.Clock().install()
         self.tmp = tempfile.mkdtemp(prefix="c17_", dir=".") if case["adapter"] else None
-        self.app = srv.make_server(srv.bptk_factory(stop=200.0), state_dir=self.tmp)
+        inner_factory = srv.bptk_factory(stop=200.0)
+        self.factory_delay = 0          # seconds of (controlled) time that building an engine takes
+
+        def factory():
+            if self.factory_delay and self.clock is not None:
+                self.clock.advance(seconds=self.factory_delay)
+            return inner_factory()
+        self.app = srv.make_server(factory, state_dir=self.tmp)
         self.c = self.app.test_client()
         self.shadow = {}      # id -> dict(last, timeout(timedelta), ext(bool), obj)
         self.all_ids = []
@@ -475,6 +515,8 @@ def run_case(case):
         w, trace, run = run_designed(case, counters)
     elif case["kind"] == "zero":
         w, trace, run = run_zero(case, counters)
+    elif case["kind"] == "slow-factory":
+        w, trace, run = run_slow_factory(case, counters)
     elif case["kind"] == "clock":
         w, trace, run = run_clock_case(case, counters)
     else:
